@@ -57,6 +57,9 @@ func (f fileSpec) content() string {
 	for _, s := range f.stmts() {
 		b.WriteString(s + "\n")
 	}
+	if f.NStmts == 0 {
+		b.WriteString("-- nothing to execute in this version\n")
+	}
 	return b.String()
 }
 
